@@ -20,6 +20,7 @@ import (
 	"testing"
 	"time"
 
+	"github.com/mitchellh/go-homedir"
 	"github.com/pgavlin/dawn/internal/verifhook"
 	"github.com/pgavlin/dawn/label"
 )
@@ -41,14 +42,23 @@ type c06Fault struct {
 type c06Pkg struct {
 	Dir   string    `json:"dir"` // "" = project root
 	Loads []string  `json:"loads"`
+	Raw   []string  `json:"raw,omitempty"` // the label text of each load statement (default: c06Ref)
 	Flag  bool      `json:"flag"`
 	Fault *c06Fault `json:"fault,omitempty"` // syntax / fail / badsym only
 }
 
+// A load statement is described by the FILE it names: a module name (file <Dirs[name]>/<name>.dawn of the project
+// Proj[name], the project under test when empty) or "@<dir>" (the package file <dir>/BUILD.dawn of the project under
+// test).  Raw holds the label text that the statement spells it with (the spelling family: explicit kinds, relative
+// labels, redundant slashes, omitted names, requirement aliases); without Raw the text is c06Ref's plain form.
 type c06Scenario struct {
 	Class  string              `json:"class"`
-	Mods   map[string][]string `json:"mods"` // module name -> names it loads (file //:<name>.dawn)
+	Mods   map[string][]string `json:"mods"` // module name -> files it loads
 	Pkgs   []c06Pkg            `json:"pkgs"`
+	Dirs   map[string]string   `json:"dirs,omitempty"` // module name -> package directory of its file ("" = root)
+	Proj   map[string]string   `json:"proj,omitempty"` // module name -> path of the (required, cached) project it lives in
+	Raw    map[string][]string `json:"raw,omitempty"`  // module name -> label text of each of its load statements
+	Reqs   map[string]string   `json:"reqs,omitempty"` // requirements of the project under test: alias -> project path
 	Faults map[string]c06Fault `json:"faults,omitempty"`
 	RvMods []string            `json:"rvmods,omitempty"` // second rendezvous: every one of these modules is executing
 	Reps   int                 `json:"-"`                // 0 = the default number of repetitions
@@ -59,6 +69,10 @@ type c06Run struct {
 	Class    string              `json:"class"`
 	Mods     map[string][]string `json:"mods"`
 	Pkgs     []c06Pkg            `json:"pkgs"`
+	Dirs     map[string]string   `json:"dirs,omitempty"`
+	Proj     map[string]string   `json:"proj,omitempty"`
+	Raw      map[string][]string `json:"raw,omitempty"`
+	Reqs     map[string]string   `json:"reqs,omitempty"`
 	Faults   map[string]c06Fault `json:"faults,omitempty"`
 	RvMods   []string            `json:"rvmods,omitempty"`
 	Rv       bool                `json:"rendezvous"`
@@ -68,6 +82,7 @@ type c06Run struct {
 	Panic    string              `json:"panic,omitempty"`
 	Err      string              `json:"err"`
 	Loading  map[string]int      `json:"loading"`
+	Ran      map[string]int      `json:"ran"` // file (module name or @dir) -> number of times its first statement ran
 	Targets  []string            `json:"targets"`
 	Flags    []string            `json:"flags"`
 	Log      [][]string          `json:"log"`
@@ -82,12 +97,23 @@ type c06Events struct {
 	discardEventsT
 	mu      sync.Mutex
 	loading map[string]int
+	ran     map[string]int
 }
 
 func (e *c06Events) ModuleLoading(l *label.Label) {
 	e.mu.Lock()
 	e.loading[l.String()]++
 	e.mu.Unlock()
+}
+
+// Print: every generated file starts with print("x:<file>"), so that an execution of the FILE is observed whatever
+// label the loader knows it by.
+func (e *c06Events) Print(l *label.Label, msg string) {
+	if strings.HasPrefix(msg, "x:") {
+		e.mu.Lock()
+		e.ran[msg[2:]]++
+		e.mu.Unlock()
+	}
 }
 
 // ---------------------------------------------------------------------------------------------------------
@@ -213,36 +239,58 @@ func (l *c06Log) handle(point string, args ...any) {
 
 const c06UnknownProject = "example.com/lib"
 
-// c06Ref is the label a load statement uses for module d.
+const c06ReqVersion = "v1.0.0" // every requirement of a generated project is at this version
+
+// c06IsPkg: the load entry names a package file ("@<dir>") rather than a module.
+func c06IsPkg(d string) bool { return strings.HasPrefix(d, "@") }
+
+// c06Ref is the plain label text for file d: [project]//<dir>:<file>.
 func c06Ref(sc *c06Scenario, d string) string {
+	if c06IsPkg(d) {
+		return "//" + d[1:] + ":BUILD.dawn"
+	}
 	if f, ok := sc.Faults[d]; ok && f.Kind == "unknownproj" {
 		return c06UnknownProject + "//:" + d + ".dawn"
 	}
-	return "//:" + d + ".dawn"
+	return sc.Proj[d] + "//" + sc.Dirs[d] + ":" + d + ".dawn"
 }
 
 // c06ModLabel / c06PkgLabel: the String() of the module's label, as the hooks report it.
 func c06ModLabel(sc *c06Scenario, d string) string {
-	if f, ok := sc.Faults[d]; ok && f.Kind == "unknownproj" {
-		return "module:" + c06UnknownProject + "//:" + d + ".dawn"
+	if c06IsPkg(d) {
+		return c06PkgLabel(d[1:])
 	}
-	return "module://:" + d + ".dawn"
+	return "module:" + c06Ref(sc, d)
 }
 
 func c06PkgLabel(dir string) string { return "module://" + dir + ":BUILD.dawn" }
 
-// c06Body renders the load statements of a file and the fault, if any, at its place among them.
-func c06Body(sc *c06Scenario, loads []string, f *c06Fault) string {
+// c06Sym: the name a load statement imports from file d.
+func c06Sym(d string) string {
+	if c06IsPkg(d) {
+		return "f_pkg"
+	}
+	return "f_" + d
+}
+
+// c06Body renders the first statement of file self (the execution marker), its load statements (raw[i], when given,
+// is the label text of statement i) and the fault, if any, at its place among them.
+func c06Body(sc *c06Scenario, self string, loads []string, raw []string, f *c06Fault) string {
 	var b strings.Builder
+	fmt.Fprintf(&b, "print(%q)\n", "x:"+self)
 	for i, d := range loads {
 		if f != nil && f.Kind == "fail" && f.At == i {
 			b.WriteString("fail(\"boom\")\n")
 		}
-		sym := "f_" + d
+		sym := c06Sym(d)
 		if f != nil && f.Kind == "badsym" && f.At == i+1 {
 			sym = "no_such_name"
 		}
-		fmt.Fprintf(&b, "load(%q, x%d=%q)\n", c06Ref(sc, d), i, sym)
+		ref := c06Ref(sc, d)
+		if i < len(raw) {
+			ref = raw[i]
+		}
+		fmt.Fprintf(&b, "load(%q, x%d=%q)\n", ref, i, sym)
 	}
 	if f != nil && f.Kind == "fail" && f.At >= len(loads) {
 		b.WriteString("fail(\"boom\")\n")
@@ -253,8 +301,29 @@ func c06Body(sc *c06Scenario, loads []string, f *c06Fault) string {
 	return b.String()
 }
 
-func c06Write(dir string, sc *c06Scenario) error {
-	if err := os.WriteFile(filepath.Join(dir, "dawn.toml"), nil, 0o644); err != nil {
+// c06Write writes the project under test into dir and, for a scenario with requirements, the download cache
+// home/.dawn/modules/cache with one entry per required project (so that nothing is fetched).
+func c06Write(dir, home string, sc *c06Scenario) error {
+	var toml strings.Builder
+	if len(sc.Reqs) > 0 {
+		toml.WriteString("[requirements]\n")
+		aliases := make([]string, 0, len(sc.Reqs))
+		for a := range sc.Reqs {
+			aliases = append(aliases, a)
+		}
+		sort.Strings(aliases)
+		for _, a := range aliases {
+			fmt.Fprintf(&toml, "%s = { path = %q, version = %q }\n", a, sc.Reqs[a], c06ReqVersion)
+			entry := filepath.Join(home, ".dawn", "modules", "cache", filepath.FromSlash(sc.Reqs[a])+"@"+c06ReqVersion)
+			if err := os.MkdirAll(entry, 0o755); err != nil {
+				return err
+			}
+			if err := os.WriteFile(filepath.Join(entry, "dawn.toml"), nil, 0o644); err != nil {
+				return err
+			}
+		}
+	}
+	if err := os.WriteFile(filepath.Join(dir, "dawn.toml"), []byte(toml.String()), 0o644); err != nil {
 		return err
 	}
 	names := make([]string, 0, len(sc.Mods))
@@ -263,6 +332,14 @@ func c06Write(dir string, sc *c06Scenario) error {
 	}
 	sort.Strings(names)
 	for _, n := range names {
+		base := dir
+		if p := sc.Proj[n]; p != "" {
+			base = filepath.Join(home, ".dawn", "modules", "cache", filepath.FromSlash(p)+"@"+c06ReqVersion)
+		}
+		mdir := filepath.Join(base, filepath.FromSlash(sc.Dirs[n]))
+		if err := os.MkdirAll(mdir, 0o755); err != nil {
+			return err
+		}
 		var f *c06Fault
 		if ff, ok := sc.Faults[n]; ok {
 			f = &ff
@@ -270,14 +347,14 @@ func c06Write(dir string, sc *c06Scenario) error {
 			case "missing", "unknownproj":
 				continue
 			case "dir":
-				if err := os.MkdirAll(filepath.Join(dir, n+".dawn"), 0o755); err != nil {
+				if err := os.MkdirAll(filepath.Join(mdir, n+".dawn"), 0o755); err != nil {
 					return err
 				}
 				continue
 			}
 		}
-		body := c06Body(sc, sc.Mods[n], f) + fmt.Sprintf("\ndef f_%s():\n    pass\n", n)
-		if err := os.WriteFile(filepath.Join(dir, n+".dawn"), []byte(body), 0o644); err != nil {
+		body := c06Body(sc, n, sc.Mods[n], sc.Raw[n], f) + fmt.Sprintf("\ndef f_%s():\n    pass\n", n)
+		if err := os.WriteFile(filepath.Join(mdir, n+".dawn"), []byte(body), 0o644); err != nil {
 			return err
 		}
 	}
@@ -287,8 +364,8 @@ func c06Write(dir string, sc *c06Scenario) error {
 			return err
 		}
 		var b strings.Builder
-		b.WriteString(c06Body(sc, p.Loads, p.Fault))
-		fmt.Fprintf(&b, "\n@target()\ndef t%d():\n    pass\n", i)
+		b.WriteString(c06Body(sc, "@"+p.Dir, p.Loads, p.Raw, p.Fault))
+		fmt.Fprintf(&b, "\n@target()\ndef t%d():\n    pass\n\ndef f_pkg():\n    pass\n", i)
 		if p.Flag {
 			fmt.Fprintf(&b, "\nfl%d = parse_flag(\"fl%d\")\n", i, i)
 		}
@@ -621,17 +698,28 @@ func c06Scale(sizes []int, wideMax int) []c06Scenario {
 // ---------------------------------------------------------------------------------------------------------
 
 func c06RunOne(id int, sc *c06Scenario, jseed int64, rendezvous bool, watchdog time.Duration) *c06Run {
-	res := &c06Run{ID: id, Class: sc.Class, Mods: sc.Mods, Pkgs: sc.Pkgs, Faults: sc.Faults, RvMods: sc.RvMods, Rv: rendezvous,
-		JSeed: jseed, MaxProcs: runtime.GOMAXPROCS(0)}
-	dir, err := os.MkdirTemp("", "verif-c06-")
+	res := &c06Run{ID: id, Class: sc.Class, Mods: sc.Mods, Pkgs: sc.Pkgs, Dirs: sc.Dirs, Proj: sc.Proj, Raw: sc.Raw, Reqs: sc.Reqs,
+		Faults: sc.Faults, RvMods: sc.RvMods, Rv: rendezvous, JSeed: jseed, MaxProcs: runtime.GOMAXPROCS(0)}
+	top, err := os.MkdirTemp("", "verif-c06-")
 	if err != nil {
 		res.Panic = "mkdtemp: " + err.Error()
 		return res
 	}
-	defer os.RemoveAll(dir)
-	if err := c06Write(dir, sc); err != nil {
+	defer os.RemoveAll(top)
+	dir, home := filepath.Join(top, "proj"), filepath.Join(top, "home")
+	if err := os.MkdirAll(dir, 0o755); err != nil {
+		res.Panic = "mkdir: " + err.Error()
+		return res
+	}
+	if err := c06Write(dir, home, sc); err != nil {
 		res.Panic = "write: " + err.Error()
 		return res
+	}
+	if len(sc.Reqs) > 0 {
+		// the download cache is $HOME/.dawn/modules/cache (TestVerifC06 turned go-homedir's memory off)
+		old := os.Getenv("HOME")
+		os.Setenv("HOME", home)
+		defer os.Setenv("HOME", old)
 	}
 
 	lg := &c06Log{rng: rand.New(rand.NewSource(jseed)), jitter: jseed != 0}
@@ -648,7 +736,7 @@ func c06RunOne(id int, sc *c06Scenario, jseed int64, rendezvous bool, watchdog t
 			lg.rvs = append(lg.rvs, c06NewRendezvous(deep))
 		}
 	}
-	evs := &c06Events{loading: map[string]int{}}
+	evs := &c06Events{loading: map[string]int{}, ran: map[string]int{}}
 	verifhook.SetHandler(lg.handle)
 	defer verifhook.SetHandler(nil)
 
@@ -691,6 +779,10 @@ func c06RunOne(id int, sc *c06Scenario, jseed int64, rendezvous bool, watchdog t
 	for k, v := range evs.loading {
 		res.Loading[k] = v
 	}
+	res.Ran = map[string]int{}
+	for k, v := range evs.ran {
+		res.Ran[k] = v
+	}
 	evs.mu.Unlock()
 	res.Panic = o.pan
 	if o.err != nil {
@@ -713,6 +805,8 @@ func TestVerifC06(t *testing.T) {
 	if outPath == "" {
 		t.Skip("VERIF_OUT not set")
 	}
+	homedir.DisableCache = true
+	defer func() { homedir.DisableCache = false; homedir.Reset() }()
 	seed, _ := strconv.ParseInt(os.Getenv("VERIF_SEED"), 10, 64)
 	nrand, _ := strconv.Atoi(os.Getenv("VERIF_NRAND"))
 	reps, _ := strconv.Atoi(os.Getenv("VERIF_REPS"))
@@ -750,6 +844,11 @@ func TestVerifC06(t *testing.T) {
 	}
 	wideMax, _ := strconv.Atoi(os.Getenv("VERIF_WIDE_MAX"))
 	scs = append(scs, c06Scale(sizes, wideMax)...)
+	scs = append(scs, c06Spelled()...)
+	srng := rand.New(rand.NewSource(seed*15485863 + 11))
+	for i := 0; i < nrand/4; i++ {
+		scs = append(scs, c06RandomSpelled(srng))
+	}
 	id := 0
 	hangs := 0
 	for i := range scs {
